@@ -1436,9 +1436,8 @@ func opcodeLShift(op *ParsedOpcode, t *thread) error {
 	if err != nil {
 		return err
 	}
-	n := num.Int()
 
-	if n < 0 {
+	if num.LessThanInt(0) {
 		return errs.NewError(errs.ErrNumberTooSmall, "n less than 0")
 	}
 
@@ -1447,13 +1446,7 @@ func opcodeLShift(op *ParsedOpcode, t *thread) error {
 		return err
 	}
 
-	l := len(x)
-	for i := 0; i < l-1; i++ {
-		x[i] = x[i]<<n | x[i+1]>>(8-n)
-	}
-	x[l-1] <<= n
-
-	t.dstack.PushByteArray(x)
+	t.dstack.PushByteArray(shiftBytes(x, num, true))
 	return nil
 }
 
@@ -1462,9 +1455,8 @@ func opcodeRShift(op *ParsedOpcode, t *thread) error {
 	if err != nil {
 		return err
 	}
-	n := num.Int()
 
-	if n < 0 {
+	if num.LessThanInt(0) {
 		return errs.NewError(errs.ErrNumberTooSmall, "n less than 0")
 	}
 
@@ -1473,14 +1465,40 @@ func opcodeRShift(op *ParsedOpcode, t *thread) error {
 		return err
 	}
 
-	l := len(x)
-	for i := l - 1; i > 0; i-- {
-		x[i] = x[i]>>n | x[i-1]<<(8-n)
-	}
-	x[0] >>= n
-
-	t.dstack.PushByteArray(x)
+	t.dstack.PushByteArray(shiftBytes(x, num, false))
 	return nil
+}
+
+// shiftBytes returns a copy of x, treated as one big-endian bit string, logically
+// shifted by n bits. The length is preserved and the operand is never modified,
+// as stack items may be shared.
+func shiftBytes(x []byte, n *scriptNumber, left bool) []byte {
+	l := len(x)
+	out := make([]byte, l)
+	if n.GreaterThanInt(int64(l)*8 - 1) {
+		return out
+	}
+
+	shift := n.Int()
+	byteShift, bitShift := shift/8, uint(shift%8)
+	for i := 0; i < l; i++ {
+		if left {
+			if j := i + byteShift; j < l {
+				out[i] = x[j] << bitShift
+				if j+1 < l {
+					out[i] |= x[j+1] >> (8 - bitShift)
+				}
+			}
+			continue
+		}
+		if j := i - byteShift; j >= 0 {
+			out[i] = x[j] >> bitShift
+			if j-1 >= 0 {
+				out[i] |= x[j-1] << (8 - bitShift)
+			}
+		}
+	}
+	return out
 }
 
 // opcodeBoolAnd treats the top two items on the data stack as integers.  When
